@@ -24,7 +24,7 @@
 From Coq Require Import ZArith List Bool String.
 From V Require Import Base.Int Base.IO Spec.Gregorian.
 From V Require Model.Date Model.Time.
-From V Require Model.DateExtra Model.C01 Model.Show Judge.C09 Judge.C04 Proofs.C04Show Proofs.C04Holds.
+From V Require Model.DateExtra Model.C01 Model.Show Judge.C09 Judge.C04 Proofs.C04Show Proofs.C04Holds Proofs.C04HoldsOld.
 From V Require Import Model.DateTime Model.C04 Proofs.C04 Proofs.C04Date Proofs.C04Wide Proofs.C04Ops.
 Import ListNotations.
 Open Scope Z_scope.
@@ -697,3 +697,69 @@ Example C04_ops_inhabited :
   in_rng (usecs NDT_MAX - 3600) = true /\ in_rng (usecs NDT_MAX - -1) = false.
 Proof. exact C04Holds.ops_inhabited. Qed.
 Print Assumptions C04_ops_inhabited.
+
+(* ================================================================================================
+   Judge acceptance for the older ops whose expected output is a function of the instant and the wall clock
+   alone (Proofs/C04HoldsOld.v; same conventions as the C04_holds_* theorems above).  Without a holds theorem
+   remain the ops whose judge has an open class (z.with, z.withtime, z.days, z.months, z.opmonths, z.ymdhms);
+   their results are pinned by the functional theorems above. *)
+Theorem C04_holds_east : forall s, in_i32 s = true ->
+  Judge.C04.judge B"z.east" [VInt s] (run B"z.east" [VInt s]) = JOk.
+Proof. exact C04HoldsOld.holds_east. Qed.
+Print Assumptions C04_holds_east.
+Theorem C04_holds_west : forall s, in_i32 s = true ->
+  Judge.C04.judge B"z.west" [VInt s] (run B"z.west" [VInt s]) = JOk.
+Proof. exact C04HoldsOld.holds_west. Qed.
+Print Assumptions C04_holds_west.
+Theorem C04_holds_fromutc : forall off u, ndt_ok u -> off_ok off ->
+  Judge.C04.judge B"z.fromutc" [VInt off; enc_ndt u] (run B"z.fromutc" [VInt off; enc_ndt u]) = JOk.
+Proof. exact C04HoldsOld.holds_fromutc. Qed.
+Print Assumptions C04_holds_fromutc.
+Theorem C04_holds_fromlocal : forall off l, ndt_ok l -> off_ok off ->
+  Judge.C04.judge B"z.fromlocal" [VInt off; enc_ndt l] (run B"z.fromlocal" [VInt off; enc_ndt l]) = JOk.
+Proof. exact C04HoldsOld.holds_fromlocal. Qed.
+Print Assumptions C04_holds_fromlocal.
+Theorem C04_holds_nutc : forall a, dtz_ok a ->
+  Judge.C04.judge B"z.nutc" [enc_dtz a] (run B"z.nutc" [enc_dtz a]) = JOk.
+Proof. exact C04HoldsOld.holds_nutc. Qed.
+Print Assumptions C04_holds_nutc.
+Theorem C04_holds_nlocal : forall a, dtz_ok a ->
+  Judge.C04.judge B"z.nlocal" [enc_dtz a] (run B"z.nlocal" [enc_dtz a]) = JOk.
+Proof. exact C04HoldsOld.holds_nlocal. Qed.
+Print Assumptions C04_holds_nlocal.
+Theorem C04_holds_datenaive : forall a, dtz_ok a ->
+  Judge.C04.judge B"z.datenaive" [enc_dtz a] (run B"z.datenaive" [enc_dtz a]) = JOk.
+Proof. exact C04HoldsOld.holds_datenaive. Qed.
+Print Assumptions C04_holds_datenaive.
+Theorem C04_holds_time : forall a, dtz_ok a ->
+  Judge.C04.judge B"z.time" [enc_dtz a] (run B"z.time" [enc_dtz a]) = JOk.
+Proof. exact C04HoldsOld.holds_time. Qed.
+Print Assumptions C04_holds_time.
+Theorem C04_holds_acc : forall a, dtz_ok a ->
+  Judge.C04.judge B"z.acc" [enc_dtz a] (run B"z.acc" [enc_dtz a]) = JOk.
+Proof. exact C04HoldsOld.holds_acc. Qed.
+Print Assumptions C04_holds_acc.
+Theorem C04_holds_withtz : forall a off, dtz_ok a -> off_ok off ->
+  Judge.C04.judge B"z.withtz" [enc_dtz a; VInt off] (run B"z.withtz" [enc_dtz a; VInt off]) = JOk.
+Proof. exact C04HoldsOld.holds_withtz. Qed.
+Print Assumptions C04_holds_withtz.
+Theorem C04_holds_fixed : forall a, dtz_ok a ->
+  Judge.C04.judge B"z.fixed" [enc_dtz a] (run B"z.fixed" [enc_dtz a]) = JOk.
+Proof. exact C04HoldsOld.holds_fixed. Qed.
+Print Assumptions C04_holds_fixed.
+Theorem C04_holds_toutc : forall a, dtz_ok a ->
+  Judge.C04.judge B"z.toutc" [enc_dtz a] (run B"z.toutc" [enc_dtz a]) = JOk.
+Proof. exact C04HoldsOld.holds_toutc. Qed.
+Print Assumptions C04_holds_toutc.
+Theorem C04_holds_eq : forall a b, dtz_ok a -> dtz_ok b ->
+  Judge.C04.judge B"z.eq" [enc_dtz a; enc_dtz b] (run B"z.eq" [enc_dtz a; enc_dtz b]) = JOk.
+Proof. exact C04HoldsOld.holds_eq. Qed.
+Print Assumptions C04_holds_eq.
+Theorem C04_holds_cmp : forall a b, dtz_ok a -> dtz_ok b ->
+  Judge.C04.judge B"z.cmp" [enc_dtz a; enc_dtz b] (run B"z.cmp" [enc_dtz a; enc_dtz b]) = JOk.
+Proof. exact C04HoldsOld.holds_cmp. Qed.
+Print Assumptions C04_holds_cmp.
+Theorem C04_holds_hasheq : forall a b, dtz_ok a -> dtz_ok b ->
+  Judge.C04.judge B"z.hasheq" [enc_dtz a; enc_dtz b] (run B"z.hasheq" [enc_dtz a; enc_dtz b]) = JOk.
+Proof. exact C04HoldsOld.holds_hasheq. Qed.
+Print Assumptions C04_holds_hasheq.
